@@ -70,6 +70,7 @@ let item o (ou, s) =
 let argv = Array.to_list Sys.argv
 let digest = List.mem "--digest" argv
 let cleanm = List.mem "--clean" argv
+let noretm = List.mem "--noreturn" argv
 (* --variant <fx1> <fx2> : older code variants of Model.v (default 1 1 = the pinned code) *)
 let rec variant = function
   | "--variant" :: a :: b :: _ -> (a = "1", b = "1")
@@ -85,6 +86,7 @@ let () =
         let ops = List.map op_of (List.filter (fun x -> String.trim x <> "") (String.split_on_char ';' line)) in
         if digest then print_endline (str_of_ns (digest0 ops))
         else if cleanm then print_endline (if clean0 ops then "1" else "0")
+        else if noretm then print_endline (if noret0 ops then "1" else "0")
         else begin
           let tr = trace fx1 fx2 fal0 cont0 sys0 ops in
           print_endline (String.concat " ; " (List.map2 item ops tr))
